@@ -821,6 +821,12 @@ _dbus_loop_iterate (DBusLoop     *loop,
                 {
                   dbus_bool_t oom;
 
+                  /* The callback can remove and free this watch (for
+                   * instance when it disconnects the connection) and still
+                   * report that it ran out of memory: keep the watch alive
+                   * until we have finished with it. */
+                  _dbus_watch_ref (watch);
+
                   oom = !dbus_watch_handle (watch, condition);
 
                   if (oom)
@@ -829,6 +835,8 @@ _dbus_loop_iterate (DBusLoop     *loop,
                       loop->oom_watch_pending = TRUE;
                       any_oom = TRUE;
                     }
+
+                  _dbus_watch_unref (watch);
 
 #if MAINLOOP_SPEW
                   _dbus_verbose ("  Invoked watch, oom = %d\n", oom);
@@ -841,7 +849,12 @@ _dbus_loop_iterate (DBusLoop     *loop,
                   if (initial_serial != loop->callback_list_serial ||
                       loop->depth != orig_depth)
                     {
-                      if (any_oom)
+                      /* the callback may have removed every watch for
+                       * this fd (and closed it): then there is nothing
+                       * left to refresh */
+                      if (any_oom &&
+                          _dbus_hash_table_lookup_pollable (loop->watches,
+                                                            ready_fds[i].fd) != NULL)
                         refresh_watches_for_fd (loop, NULL, ready_fds[i].fd);
 
                       goto next_iteration;
